@@ -5,6 +5,9 @@ import AfkakProofs.Wire.RespProofs4
 import AfkakProofs.Wire.FetchResp
 import AfkakProofs.Wire.Nested
 import AfkakProps.Open.C05
+import AfkakProofs.Wire.ReplyVersions
+import AfkakProofs.Wire.EncDec
+import AfkakProofs.Wire.GenEq
 /-!
 # C05 — responses and message sets decode to exactly what was encoded
 
@@ -307,6 +310,67 @@ theorem C05_correlation_id (corr : Int) (rest : Bytes) (e : Int) (he : expectedC
   · rename_i hv; cases he; exact correlationId_roundtrip corr rest hv
   · cases he
 
+/-! ## completeness: every `api_version`, and afkak's encoder composed with afkak's decoder -/
+
+/-- **Every value of `api_version`** (completeness of the version table): the two versioned decoders
+    take any integer.  `decode_produce_response`: 0 selects the v0 layout, EVERY version ≥ 1 the v2
+    layout (so 1 is read as 2 — a version-1 reply has no log-append time and is not implemented,
+    `C04_reply_v1_not_implemented` — and 3, 4, … as 2: the client hands on the broker's maximum), a
+    negative one raises `ValueError` from the call itself.  `decode_fetch_response`: 0 → v0, every
+    version ≥ 2 → v2, and 1 or a negative one binds neither branch: `UnboundLocalError` on EVERY input.
+    With `C05_produce_v0/v2_roundtrip` and `C05_fetch_v0/v2_roundtrip` no integer is left over. -/
+theorem C05_reply_version_dispatch :
+    (∀ data (v : Int), 1 ≤ v → decodeProduceResponse data v = decodeProduceResponse data 2)
+    ∧ (∀ data (v : Int), v < 0 → decodeProduceResponse data v = .error .valueError)
+    ∧ (∀ ext depth data (v : Int), 2 ≤ v → decodeFetchResponse ext depth data v = decodeFetchResponse ext depth data 2)
+    ∧ (∀ ext depth data (v : Int), v = 1 ∨ v < 0 → decodeFetchResponse ext depth data v = ([], .error .unboundLocal)) :=
+  ⟨decodeProduceResponse_ge1, decodeProduceResponse_neg, decodeFetchResponse_ge2, decodeFetchResponse_unbound⟩
+
+/-- hence the round trip for every version the decoders accept -/
+theorem C05_reply_roundtrip_any_version (ver : Int) :
+    (1 ≤ ver → ∀ v e, expectedProduceV2 v = some (e, true) →
+        ∃ g, decodeProduceResponse (Spec.produceResponseV2.enc v) ver = .ok g ∧ finished g e)
+    ∧ (2 ≤ ver → ∀ (ext : Ext) (depth : Nat) v e,
+        expectedFetchV2 ext.crc (fun b => (ext.gunzip (some b)).toOption) depth v = some (e, true) →
+        finished (decodeFetchResponse ext (depth + 1) ((Spec.fetchResponseV2 ext.crc).enc v) ver) e) := by
+  constructor
+  · intro h v e he
+    rw [decodeProduceResponse_ge1 _ ver h]
+    exact C05_produce_v2_roundtrip v e he
+  · intro h ext depth v e he
+    rw [decodeFetchResponse_ge2 ext _ _ ver h]
+    exact C05_fetch_v2_roundtrip ext depth v e he
+
+/-- **Encoding then decoding is the identity on messages — afkak's own encoder, then afkak's decoder**
+    (`_encode_message_set(ms, offset, magic)` for EVERY `offset` argument, then
+    `_decode_message_set_iter`): whenever the encoder writes bytes at all and no message carries codec
+    bits, the decoder yields exactly the caller's messages, in order, the `i`-th at offset
+    `offset + i` (0 when no offset was given), and ends normally.  `stamped` is the only difference
+    the wire makes: a format-0 message has no timestamp, a format-1 message without one carries the
+    encoder's clock.  No well-formedness hypothesis: that every written field is one the grammar can
+    carry is derived from the encoder's success. -/
+theorem C05_encode_decode_identity (ext : Ext) (depth : Nat) (ms : List Message) (offset : Option Int) (magic : Int)
+    (data : Bytes) (h : encodeMessageSet ext ms offset magic = .ok data)
+    (hplain : ∀ m ∈ ms, m.attributes % 4 = 0) :
+    decodeMessageSet ext (depth + 1) data =
+      (ms.zipIdx.map (fun (p : Message × Nat) =>
+        (⟨(match offset with | some o => o + (p.2 : Int) | none => 0), stamped ext.nowMs p.1⟩ : OffsetAndMessage)), none)
+    ∧ ∃ entries, Monitor.C04.entriesAt ext.nowMs offset ms = some entries
+        ∧ (Spec.messageSet ext.crc).valid entries = true ∧ data = (Spec.messageSet ext.crc).enc entries :=
+  ⟨encode_decode_messages ext depth ms offset magic data h hplain,
+   let ⟨entries, h1, h2, h3, _⟩ := encode_decode_identity ext depth ms offset magic data h hplain
+   ⟨entries, h1, h2, h3⟩⟩
+
+def idExt : Ext :=
+  { crc := fun bs => bs.length * 2654435761 + 7, gzip := fun _ => .error .extMissing, gunzip := fun _ => .error .extMissing,
+    snappy := fun _ => .error .notImplemented, unsnappy := fun _ => .error .notImplemented, nowMs := 1500000000123 }
+/-- non-vacuity: two format-1 messages (null key / empty value, timestamp absent / −1, attribute bit 3)
+    from offset 7 encode, and come back at offsets 7 and 8 -/
+example : ∃ data, encodeMessageSet idExt [⟨1, 8, none, some [], none⟩, ⟨1, 0, some [107], none, some (-1)⟩] (some 7) 1 = .ok data
+    ∧ decodeMessageSet idExt 1 data =
+      ([⟨7, ⟨1, 8, none, some [], some 1500000000123⟩⟩, ⟨8, ⟨1, 0, some [107], none, some (-1)⟩⟩], none) :=
+  ⟨_, rfl, by decide +kernel⟩
+
 /-! Non-vacuity: concrete well-formed values (boundary integers, every kind of error code, empty and
 non-empty strings) for which `expectedX` is `some _`. -/
 example : expectedProduceV0 (7, [([116], [(0, 0, 5), (2147483647, -1, 9223372036854775807)]), ([], [])])
@@ -333,6 +397,35 @@ theorem C05_codec_mask_agree :
     | some tail =>
       simp only
       rw [if_neg (by omega), if_neg (by omega)]
+
+
+/-! ## the model's readers ARE the source: terms regenerated from `/repo`'s AST on every run
+
+`Afkak.Consts.gen*` (`Afkak/Generated/WiregenConsts.lean`) are emitted by
+`harness/lib/wire_translate.py` from the AST of `afkak/_util.py` / `afkak/kafkacodec.py`, one line per
+source statement.  Each equals the hand-written model function for ALL arguments (every buffer, every
+cursor, also negative and out-of-range ones), so every theorem above about the model function is a
+theorem about the translated source text. -/
+
+/-- `_util.read_short_bytes` -/
+theorem C05_generated_read_short_bytes_eq_model (data : Bytes) (cur : Int) :
+    genReadShortBytes data cur = readShortBytes data cur := gen_readShortBytes data cur
+
+/-- `_util.read_int_string` -/
+theorem C05_generated_read_int_string_eq_model (data : Bytes) (cur : Int) :
+    genReadIntString data cur = readIntString data cur := gen_readIntString data cur
+
+/-- `_util.read_short_ascii` -/
+theorem C05_generated_read_short_ascii_eq_model (data : Bytes) (cur : Int) :
+    genReadShortAscii data cur = readShortAscii data cur := gen_readShortAscii data cur
+
+/-- `_util.read_short_text` -/
+theorem C05_generated_read_short_text_eq_model (data : Bytes) (cur : Int) :
+    genReadShortText data cur = readShortText data cur := gen_readShortText data cur
+
+/-- `_util.relative_unpack`, for every format string -/
+theorem C05_generated_relative_unpack_eq_model (fmt : List Char) (data : Bytes) (cur : Int) :
+    genRelativeUnpack fmt data cur = relativeUnpack fmt data cur := gen_relativeUnpack fmt data cur
 
 end Afkak.Props.C05
 
@@ -366,6 +459,14 @@ C05_assignment_roundtrip
 C05_metadata_roundtrip
 C05_correlation_id
 C05_codec_mask_agree
+C05_reply_version_dispatch
+C05_reply_roundtrip_any_version
+C05_encode_decode_identity
+C05_generated_read_short_bytes_eq_model
+C05_generated_read_int_string_eq_model
+C05_generated_read_short_ascii_eq_model
+C05_generated_read_short_text_eq_model
+C05_generated_relative_unpack_eq_model
 -/
 /- OPEN_STATEMENTS
 -/
